@@ -11,6 +11,9 @@ A *program model* is a JSON-able dict (built by the generator in ``vf/checks/c09
 
     expr ::= ["c", int] | ["v", name] | ["g", i] | ["b", "+"|"-"|"*", expr, expr]
            | ["call", k, expr, expr] | ["call", k, expr, expr, name]      (name: object / list variable passed by reference)
+           | ["rcall", k, expr, expr]    call of a *recursive* helper, rendered ``hK(e1, (e2) % 3)``: a1 is its fuel
+           | ["self", k, expr]           the recursive call inside helper K, rendered ``hK(e, a1 - 1)``; the generator puts
+                                         it behind the guard ``if a1 <= 0: return ...`` (recursion depth <= 3)
            | ["attr", objvar, "v"|"w"] | ["sub", listvar, index]
     index ::= ["c", 0..2] | expr                   (a non-constant index is rendered / evaluated as ``(expr) % 3``)
     cond ::= ["cmp", "<"|"<="|"=="|"!="|">"|">=", expr, expr]
@@ -80,6 +83,10 @@ def _rx(e: list) -> str:
     if k == "call":
         args = [_rx(e[2]), _rx(e[3])] + ([str(e[4])] if len(e) > 4 else [])
         return f"h{int(e[1])}({', '.join(args)})"
+    if k == "rcall":
+        return f"h{int(e[1])}({_rx(e[2])}, ({_rx(e[3])}) % 3)"
+    if k == "self":
+        return f"h{int(e[1])}({_rx(e[2])}, a1 - 1)"
     if k == "attr":
         return f"{e[1]}.{e[2]}"
     if k == "sub":
@@ -242,7 +249,9 @@ class Interpreter:
         self.kinds: dict[int, str] = {}
         self.edges: dict[int, set[tuple[int, str]]] = {}
         self.instances = 0
-        self.stats = {"calls": 0, "iterations": 0, "heap_reads": 0, "heap_writes": 0, "preds": 0, "early_returns": 0}
+        self.depth = 0
+        self.stats = {"calls": 0, "iterations": 0, "heap_reads": 0, "heap_writes": 0, "preds": 0, "early_returns": 0,
+                      "recursive_calls": 0}
 
     # ---- bookkeeping
     def _tick(self, line: int, kind: str) -> None:
@@ -287,21 +296,36 @@ class Interpreter:
             self.stats["heap_reads"] += 1
             val, delem, oelem = lst.elems[idx]
             return val, dvar | didx | delem, ovar | oidx | oelem
-        if k == "call":
+        if k in ("call", "rcall", "self"):
             fn = self.lay["helpers"][int(e[1])]
             a, da, oa = self.ev(e[2], env, line, ctrl)
-            b, db, ob = self.ev(e[3], env, line, ctrl)
+            if k == "self":
+                b, db, ob = env["a1"]
+                b -= 1
+                if b < 0 or self.depth >= 3:
+                    raise Unsupported("unguarded recursion")
+            else:
+                b, db, ob = self.ev(e[3], env, line, ctrl)
+                if k == "rcall":
+                    b %= 3
             here = frozenset((line,))
             via = frozenset(((line, "param"),))
             base = here | ctrl[0]
             callee_env: dict[str, tuple] = {"a0": (a, da | base, oa | via), "a1": (b, db | base, ob | via)}
-            if len(e) > 4:
+            if k == "call" and len(e) > 4:
                 ref, dref, oref = env[e[4]]
                 callee_env[fn["params"][2]] = (ref, dref | base, oref | via)
             call_ctrl = (base | frozenset((fn["def_line"],)),
                          frozenset(((line, "ctrl-call"), (fn["def_line"], "callee-def"))))
             self.stats["calls"] += 1
-            val, dret, ret_line = self.run_function(fn, callee_env, call_ctrl)
+            if k == "self":
+                self.depth += 1
+                self.stats["recursive_calls"] += 1
+            try:
+                val, dret, ret_line = self.run_function(fn, callee_env, call_ctrl)
+            finally:
+                if k == "self":
+                    self.depth -= 1
             return val, dret | call_ctrl[0], frozenset(((ret_line, "return"), (fn["def_line"], "callee-def")))
         raise Unsupported(f"unknown expression {e!r}")
 
